@@ -36,7 +36,8 @@ Proof.
   assert (Hl : (0 + 1 <? length (n :: sx)) && (0 <=? length (n :: sx)) = true).
   { destruct sx; [congruence|]. reflexivity. }
   rewrite Hl. rewrite lastn_0. cbn [firstn map].
-  rewrite moveaxis_same by (auto; unfold ndim; rewrite Hs; destruct sx; [congruence | simpl; lia]).
+  assert (Hnd : 1 < ndim X) by (unfold ndim; rewrite Hs; destruct sx; [congruence | simpl; lia]).
+  change (0 + 1) with 1. rewrite (moveaxis_same X 1 W Hnd).
   change ([Some n] ++ [None] ++ []) with (map Some [n] ++ [None] ++ map Some (@nil nat)).
   assert (Hk : prod [n] * prod [] = n) by (cbn [prod fold_right]; lia).
   rewrite reshape_spec_one_none.
@@ -46,3 +47,186 @@ Proof.
   - rewrite Hk, Hs. change (prod (n :: sx)) with (n * prod sx). rewrite Nat.mul_comm. apply Nat.mod_mul. lia.
 Qed.
 End P.
+
+(* reshape with one leading -1 *)
+Section Q.
+Context {A : Type} (d : A).
+Lemma reshape_lead_none (t : tensor A) (tail : list nat) : prod tail <> 0 -> prod (shape t) mod prod tail = 0 ->
+  reshape_spec (None :: map Some tail) t = Ok (reshape (prod (shape t) / prod tail :: tail) t).
+Proof.
+  intros H0 Hm.
+  change (None :: map Some tail) with (map Some (@nil nat) ++ [None] ++ map Some tail).
+  assert (Hk : prod [] * prod tail = prod tail) by (cbn [prod fold_right]; lia).
+  rewrite reshape_spec_one_none; rewrite ?Hk; auto.
+Qed.
+
+Lemma reshape_none (t : tensor A) : reshape_spec [None] t = Ok (reshape [prod (shape t)] t).
+Proof. exact (tensor_to_vec_eq t). Qed.
+
+Lemma get_reshape_rows (t : tensor A) n sx i j : shape t = n :: sx -> j < prod sx ->
+  get d (reshape [n; prod sx] t) [i; j] = get d t (i :: unravel sx j).
+Proof.
+  intros Hs Hj. unfold get, reshape. cbn [shape data]. rewrite Hs. cbn [ravel prod fold_right].
+  rewrite ravel_unravel by exact Hj. f_equal. lia.
+Qed.
+
+Lemma get_reshape_split (t : tensor A) sx so J o : shape t = sx ++ so -> length J = length sx ->
+  get d (reshape [prod sx; prod so] t) [ravel sx J; ravel so o] = get d t (J ++ o).
+Proof.
+  intros Hs Hl. unfold get, reshape. cbn [shape data]. rewrite Hs, ravel_app by exact Hl.
+  cbn [ravel prod fold_right]. f_equal. lia.
+Qed.
+
+Lemma get_reshape_tail (t : tensor A) n so i o : 
+  get d (reshape (n :: so) t) (i :: o) = get d (reshape [n; prod so] t) [i; ravel so o].
+Proof. unfold get, reshape. cbn [shape data ravel prod fold_right]. f_equal. lia. Qed.
+End Q.
+
+(* ---------- ring regime ---------- *)
+Section Ring.
+Context {F : Type} (Op : fops F).
+Hypothesis Rth : ring_theory (f0 Op) (f1 Op) (fadd Op) (fmul Op) (fsub Op) (fopp Op) (@eq F).
+Add Ring Fr : Rth.
+
+Notation tget := (tget Op).
+Notation fsumn := (fsumn Op).
+Notation fsum_idx := (fsum_idx Op).
+
+Lemma fsumn_ext n f g : (forall i, i < n -> f i = g i) -> fsumn n f = fsumn n g.
+Proof. apply bigsum_ext. Qed.
+Lemma fsum_idx_ext s f g : (forall idx, inb s idx -> f idx = g idx) -> fsum_idx s f = fsum_idx s g.
+Proof. apply sum_idx_ext. Qed.
+
+(* CPRegressor.predict = contraction of every sample with the weight tensor over the non-sample
+   modes; for every per-sample order (sx non-empty) and every output shape so (possibly []) *)
+Theorem predict_cp_contraction (W X : tensor F) n sx so :
+  wf X -> wf W -> shape X = n :: sx -> sx <> [] -> shape W = sx ++ so -> 0 < n -> 0 < prod so ->
+  exists P, predict_cp Op W X = Ok P /\ shape P = n :: so /\ wf P /\
+    forall i o, i < n -> inb so o ->
+      tget P (i :: o) = fsum_idx sx (fun J => fmul Op (tget X (i :: J)) (tget W (J ++ o))).
+Proof.
+  intros WX WW HsX Hsx HsW Hn Hso. unfold predict_cp.
+  rewrite (ptv_eq (f0 Op) X n sx WX HsX Hsx Hn). cbn [rbind].
+  assert (Hk : ndim X - 1 = length sx) by (unfold ndim; rewrite HsX; simpl; lia).
+  rewrite Hk, HsW.
+  assert (Htail : skipn (length sx) (sx ++ so) = so).
+  { rewrite skipn_app, skipn_all, Nat.sub_diag. reflexivity. }
+  rewrite Htail.
+  assert (HpW : prod (shape W) = prod sx * prod so) by (rewrite HsW; apply prod_app).
+  destruct so as [|a so'].
+  - (* scalar target *)
+    assert (Hlt : (length sx <? ndim W) = false) by (apply Nat.ltb_ge; unfold ndim; rewrite HsW, app_nil_r; lia).
+    rewrite Hlt. rewrite reshape_none. cbn [rbind].
+    unfold dot. cbn [shape reshape]. rewrite HpW. cbn [prod fold_right]. rewrite Nat.mul_1_r, Nat.eqb_refl. cbn [rbind].
+    cbn [map]. rewrite reshape_none. eexists. split; [reflexivity|].
+    cbn [shape reshape tabulate prod fold_right]. rewrite Nat.mul_1_r.
+    split; [reflexivity|]. split; [apply wf_reshape; [apply wf_tabulate | reflexivity]|].
+    intros i o Hi Ho. apply inb_nil_inv in Ho. subst o.
+    set (g := fun idx : list nat => _).
+    change (reshape [n] (tabulate [n] g)) with (tabulate [n] g).
+    unfold Regress.tget at 1. rewrite get_tabulate by (cbn [inb]; auto).
+    unfold g. cbn [nth]. unfold Regress.fsum_idx, sum_idx. apply bigsum_ext. intros j Hj.
+    f_equal.
+    + unfold Regress.tget. apply get_reshape_rows; assumption.
+    + rewrite app_nil_r. unfold Regress.tget, get, reshape. cbn [shape data ravel prod fold_right].
+      rewrite HsW, app_nil_r, ravel_unravel by exact Hj. f_equal. lia.
+  - (* tensor-valued target *)
+    set (so := a :: so') in *.
+    assert (Hlt : (length sx <? ndim W) = true) by (apply Nat.ltb_lt; unfold ndim; rewrite HsW, app_length; simpl; lia).
+    rewrite Hlt.
+    change [None; Some (prod so)] with (None :: map Some [prod so]).
+    assert (Hp1 : prod [prod so] = prod so) by (cbn [prod fold_right]; lia).
+    rewrite reshape_lead_none; [| rewrite Hp1; lia | rewrite Hp1, HpW; apply Nat.mod_mul; lia].
+    rewrite Hp1, HpW, Nat.div_mul by lia. cbn [rbind].
+    unfold dot. cbn [shape reshape]. rewrite Nat.eqb_refl. cbn [rbind].
+    set (g := fun idx : list nat => _).
+    assert (Hpg : prod (shape (tabulate [n; prod so] g)) = n * prod so) by (cbn [shape tabulate prod fold_right]; lia).
+    rewrite reshape_lead_none; [| lia | rewrite Hpg; apply Nat.mod_mul; lia].
+    rewrite Hpg, Nat.div_mul by lia.
+    eexists. split; [reflexivity|]. split; [reflexivity|].
+    split; [apply wf_reshape; [apply wf_tabulate | rewrite Hpg; cbn [prod fold_right]; reflexivity]|].
+    intros i o Hi Ho.
+    unfold Regress.tget at 1. rewrite get_reshape_tail.
+    change (reshape [n; prod so] (tabulate [n; prod so] g)) with (tabulate [n; prod so] g).
+    pose proof (ravel_lt _ _ Ho) as Hc.
+    rewrite get_tabulate by (cbn [inb]; auto).
+    unfold g. cbn [nth]. unfold Regress.fsum_idx, sum_idx. apply bigsum_ext. intros j Hj.
+    f_equal.
+    + unfold Regress.tget. apply get_reshape_rows; assumption.
+    + unfold Regress.tget.
+      rewrite <- (ravel_unravel sx j Hj) at 1.
+      apply get_reshape_split; [exact HsW | apply unravel_length].
+Qed.
+
+(* TuckerRegressor.predict with vec_W_ = tensor_to_vec(weight tensor) *)
+Theorem predict_tucker_contraction (W vecW X : tensor F) n sx :
+  wf X -> wf W -> shape X = n :: sx -> sx <> [] -> shape W = sx -> 0 < n ->
+  tensor_to_vec W = Ok vecW ->
+  exists P, predict_tucker Op vecW X = Ok P /\ shape P = [n] /\ wf P /\
+    forall i, i < n -> tget P [i] = fsum_idx sx (fun J => fmul Op (tget X (i :: J)) (tget W J)).
+Proof.
+  intros WX WW HsX Hsx HsW Hn Hv. rewrite tensor_to_vec_eq in Hv. injection Hv as <-.
+  unfold predict_tucker. rewrite (ptv_eq (f0 Op) X n sx WX HsX Hsx Hn). cbn [rbind].
+  unfold dot. cbn [shape reshape]. rewrite HsW, Nat.eqb_refl.
+  set (g := fun idx : list nat => _).
+  eexists. split; [reflexivity|]. split; [reflexivity|]. split; [apply wf_tabulate|].
+  intros i Hi. unfold Regress.tget at 1. rewrite get_tabulate by (cbn [inb]; auto).
+  unfold g. cbn [nth]. unfold Regress.fsum_idx, sum_idx. apply bigsum_ext. intros j Hj.
+  f_equal.
+  - change (mk [n; prod sx] (data X)) with (reshape [n; prod sx] X). unfold Regress.tget.
+    apply get_reshape_rows; assumption.
+  - unfold Regress.tget, get, reshape. cbn [shape data ravel prod fold_right].
+    rewrite HsW, ravel_unravel by exact Hj. f_equal. lia.
+Qed.
+
+(* what fit stores *)
+Lemma cp_stored_vec w fs : vec_W_ (cp_fit_tail Op w fs) = tensor_to_vec (weight_tensor_ (cp_fit_tail Op w fs)).
+Proof. reflexivity. Qed.
+Lemma tucker_stored_vec G fs : vec_W_ (tucker_fit_tail Op G fs) = tensor_to_vec (weight_tensor_ (tucker_fit_tail Op G fs)).
+Proof. reflexivity. Qed.
+
+Lemma cp_weight_entry w fs idx : inb (factor_rows fs) idx ->
+  tget (weight_tensor_ (cp_fit_tail Op w fs)) idx =
+  fsumn (nth 0 (shape w) 0) (fun r => fmul Op (tget w [r]) (cp_coeff Op fs idx r)).
+Proof. intros H. unfold Regress.tget at 1. cbn [cp_fit_tail weight_tensor_]. unfold cp_to_tensor. now rewrite get_tabulate. Qed.
+Lemma tucker_weight_entry G fs idx : inb (factor_rows fs) idx ->
+  tget (weight_tensor_ (tucker_fit_tail Op G fs)) idx =
+  fsum_idx (shape G) (fun J => fmul Op (tget G J) (tk_coeff Op fs idx J)).
+Proof. intros H. unfold Regress.tget at 1. cbn [tucker_fit_tail weight_tensor_]. unfold tucker_to_tensor. now rewrite get_tabulate. Qed.
+
+Lemma inb_unravel_app sx so J o : inb sx J -> inb so o -> inb (sx ++ so) (J ++ o).
+Proof. apply inb_app. Qed.
+
+(* the fitted CP regressor predicts with the reconstruction of the factors it exposes *)
+Theorem cp_regressor_predict_factors (w : tensor F) (fs : list (tensor F)) (X : tensor F) n sx so :
+  wf X -> shape X = n :: sx -> sx <> [] -> factor_rows fs = sx ++ so -> 0 < n -> 0 < prod so ->
+  exists P, cp_regressor_predict Op w fs X = Ok P /\ shape P = n :: so /\
+    forall i o, i < n -> inb so o ->
+      tget P (i :: o) = fsum_idx sx (fun J => fmul Op (tget X (i :: J))
+                          (fsumn (nth 0 (shape w) 0) (fun r => fmul Op (tget w [r]) (cp_coeff Op fs (J ++ o) r)))).
+Proof.
+  intros WX HsX Hsx Hfs Hn Hso. unfold cp_regressor_predict.
+  assert (WW : wf (weight_tensor_ (cp_fit_tail Op w fs))) by apply wf_tabulate.
+  destruct (predict_cp_contraction (weight_tensor_ (cp_fit_tail Op w fs)) X n sx so WX WW HsX Hsx Hfs Hn Hso) as (P & HP & HsP & _ & HE).
+  - exists P. split; [exact HP|]. split; [exact HsP|]. intros i o Hi Ho. rewrite (HE i o Hi Ho).
+    apply sum_idx_ext. intros J HJ. f_equal. apply cp_weight_entry. rewrite Hfs. now apply inb_app.
+Qed.
+
+Theorem tucker_regressor_predict_factors (G : tensor F) (fs : list (tensor F)) (X : tensor F) n sx :
+  wf X -> shape X = n :: sx -> sx <> [] -> factor_rows fs = sx -> 0 < n ->
+  exists P, tucker_regressor_predict Op G fs X = Ok P /\ shape P = [n] /\
+    forall i, i < n ->
+      tget P [i] = fsum_idx sx (fun J => fmul Op (tget X (i :: J))
+                          (fsum_idx (shape G) (fun K => fmul Op (tget G K) (tk_coeff Op fs J K)))).
+Proof.
+  intros WX HsX Hsx Hfs Hn. unfold tucker_regressor_predict.
+  set (W := weight_tensor_ (tucker_fit_tail Op G fs)).
+  assert (Hv : vec_W_ (tucker_fit_tail Op G fs) = Ok (reshape [prod (shape W)] W)) by (apply tensor_to_vec_eq).
+  rewrite Hv. cbn [rbind].
+  assert (WW : wf W) by apply wf_tabulate.
+  assert (HsW : shape W = sx) by exact Hfs.
+  destruct (predict_tucker_contraction W (reshape [prod (shape W)] W) X n sx WX WW HsX Hsx HsW Hn (tensor_to_vec_eq W)) as (P & HP & HsP & _ & HE).
+  - exists P. split; [exact HP|]. split; [exact HsP|]. intros i Hi. rewrite (HE i Hi).
+    apply sum_idx_ext. intros J HJ. f_equal. apply tucker_weight_entry. now rewrite Hfs.
+Qed.
+End Ring.
